@@ -135,6 +135,34 @@ fn judge<'a, T: DiffableStr + ?Sized + 'a>(d: &'a TextDiff<'a, 'a, 'a, T>, old: 
     Ok(())
 }
 
+/// The remapper only needs the texts the diff was built from, not the very objects: given equal
+/// COPIES of the two strings (other addresses) it returns the same slices, as substrings of the copies.
+fn copies<'a, 'c, T: DiffableStr + ?Sized + 'a>(d: &TextDiff<'a, 'a, 'a, T>, old: &'a T, new: &'a T, co: &'c T, cn: &'c T) -> Result<(), String>
+where
+    'a: 'c,
+{
+    let r0 = TextDiffRemapper::from_text_diff(d, old, new);
+    let r1 = TextDiffRemapper::from_text_diff(d, co, cn);
+    let within = |s: &[u8], buf: &[u8]| s.is_empty() || (s.as_ptr() as usize >= buf.as_ptr() as usize && s.as_ptr() as usize + s.len() <= buf.as_ptr() as usize + buf.len());
+    for op in d.ops() {
+        let a: Vec<(ChangeTag, &T)> = r0.iter_slices(op).collect();
+        let b: Vec<(ChangeTag, &T)> = r1.iter_slices(op).collect();
+        if a.len() != b.len() {
+            return Err(format!("TextDiffRemapper::from_text_diff over equal copies of the texts: {:?} yields {} slices, over the originals {}", op, b.len(), a.len()));
+        }
+        for ((ta, sa), (tb, sb)) in a.iter().zip(b.iter()) {
+            if ta != tb || sa.as_bytes() != sb.as_bytes() {
+                return Err(format!("TextDiffRemapper::from_text_diff over equal copies of the texts: {:?} yields ({:?}, {:?}), over the originals ({:?}, {:?})", op, tb, escape_bytes(sb.as_bytes()), ta, escape_bytes(sa.as_bytes())));
+            }
+            let buf = if *tb == ChangeTag::Insert { cn.as_bytes() } else { co.as_bytes() };
+            if !within(sb.as_bytes(), buf) {
+                return Err(format!("TextDiffRemapper::from_text_diff over equal copies of the texts: {:?}: the slice {:?} does not lie in the copy it was given", op, escape_bytes(sb.as_bytes())));
+            }
+        }
+    }
+    Ok(())
+}
+
 fn judge_helper<T: DiffableStr + ?Sized>(name: &str, out: Vec<(ChangeTag, &T)>, ob: &[u8], nb: &[u8]) -> Result<(), String> {
     let mut oc = vec![];
     let mut nc = vec![];
@@ -386,7 +414,9 @@ pub fn check_case(c: &TextCase, obs: &mut Obs) -> Verdict {
             let d = diff_bytes(&cfg, c.tok, &c.old.0, &c.new.0);
             similar::verif::clock::install(None);
             exercise(&d, c.opt);
-            judge(&d, &c.old.0[..], &c.new.0[..], false, obs)
+            judge(&d, &c.old.0[..], &c.new.0[..], false, obs)?;
+            let (co, cn) = (c.old.0.clone(), c.new.0.clone());
+            copies(&d, &c.old.0[..], &c.new.0[..], &co[..], &cn[..])
         })
     } else {
         guard(|| {
@@ -395,7 +425,9 @@ pub fn check_case(c: &TextCase, obs: &mut Obs) -> Verdict {
             let d = diff_str(&cfg, c.tok, o, n);
             similar::verif::clock::install(None);
             exercise(&d, c.opt);
-            judge(&d, o, n, false, obs)
+            judge(&d, o, n, false, obs)?;
+            let (co, cn) = (o.to_string(), n.to_string());
+            copies(&d, o, n, co.as_str(), cn.as_str())
         })
     };
     similar::verif::clock::install(None);
@@ -446,7 +478,7 @@ impl Prop for C17 {
     type Case = TextCase;
     const ID: &'static str = "C17";
     fn rule() -> String {
-        "1 case in 6 builds its TextDiff under a deadline that has passed or runs out at one of the first probes (virtual clock); cases = (old text, new text, tokenizer, algorithm, str | [u8]) from the shared text mixture (see C04) plus an enumeration of 6x6 corner texts x 5 tokenizers x 3 algorithms x {str,[u8]} (covers (\"\",\"\") for every algorithm). Oracle: TextDiffRemapper::{from_text_diff,new}::iter_slices(op) has the tags of DiffOp::iter_slices over the token vectors, each slice equals the concatenation of the op's tokens and is the substring of the original at the right byte offset (pointer arithmetic); slice_old/slice_new agree; non-Insert slices concatenate to old, non-Delete to new; utils::diff_{lines,words,chars,unicode_words,graphemes,slices} reconstruct both inputs, return no empty slice, do not panic and equal the text diff with the same algorithm expanded through TextDiffRemapper (diff_lines: one change per line, as documented); every utils::diff_slices slice is the sub-slice of the proper input at the walk position (pointer arithmetic), also over record items that compare by key only (payloads tell old from new items). 1 random case in 8 uses a CALLER-DEFINED tokenization (text cut at pseudo-random char boundaries, occasional empty tokens) through TextDiffConfig::diff_slices + both remapper constructors (the no-empty-slice clause is not applied there). Non-trivial = >= 2 ops and a multi-token slice; distinct = distinct serialized case.".into()
+        "1 case in 6 builds its TextDiff under a deadline that has passed or runs out at one of the first probes (virtual clock); cases = (old text, new text, tokenizer, algorithm, str | [u8]) from the shared text mixture (see C04) plus an enumeration of 6x6 corner texts x 5 tokenizers x 3 algorithms x {str,[u8]} (covers (\"\",\"\") for every algorithm). Oracle: TextDiffRemapper::{from_text_diff,new}::iter_slices(op) has the tags of DiffOp::iter_slices over the token vectors, each slice equals the concatenation of the op's tokens and is the substring of the original at the right byte offset (pointer arithmetic); slice_old/slice_new agree; a remapper given equal COPIES of the two texts (other addresses) returns the same slices, lying in the copies; non-Insert slices concatenate to old, non-Delete to new; utils::diff_{lines,words,chars,unicode_words,graphemes,slices} reconstruct both inputs, return no empty slice, do not panic and equal the text diff with the same algorithm expanded through TextDiffRemapper (diff_lines: one change per line, as documented); every utils::diff_slices slice is the sub-slice of the proper input at the walk position (pointer arithmetic), also over record items that compare by key only (payloads tell old from new items). 1 random case in 8 uses a CALLER-DEFINED tokenization (text cut at pseudo-random char boundaries, occasional empty tokens) through TextDiffConfig::diff_slices + both remapper constructors (the no-empty-slice clause is not applied there). Non-trivial = >= 2 ops and a multi-token slice; distinct = distinct serialized case.".into()
     }
     fn assumptions() -> Vec<String> {
         vec!["the original strings passed to the remapper are the ones the diff was built from".into()]
